@@ -24,6 +24,7 @@ import (
 	"sort"
 	"strings"
 	"sync"
+	"sync/atomic"
 	"time"
 
 	"go.dedis.ch/kyber/v3/suites"
@@ -58,6 +59,13 @@ type opIn struct {
 	Conn  int       `json:"conn,omitempty"`
 	Msg   int       `json:"msg,omitempty"`
 	Peer  int       `json:"peer,omitempty"`
+	// set: pass a NIL member list (only meaningful with no peers) instead of an empty one
+	NilPeers bool `json:"nilpeers,omitempty"`
+	// set: this and the following Group-1 set operations (pairwise DIFFERENT set ids) are
+	// issued concurrently, released from a barrier, Trials times; in trial t every member
+	// list is shifted by Trials-1-t over the key pool, so the last trial sets exactly Peers
+	Group  int `json:"group,omitempty"`
+	Trials int `json:"trials,omitempty"`
 }
 
 type input struct {
@@ -149,6 +157,8 @@ type world struct {
 	ctxPeer int
 	ctxSrv  *onet.Server
 
+	eff     []opIn // the operations as executed (member lists of the reported trial of a concurrent group)
+	trials  int    // concurrent trials run
 	raw     map[int]*rawConn
 	routers map[int]*network.Router
 	closers []func()
@@ -556,6 +566,136 @@ func (w *world) newPeerRouter(p int) (*network.Router, error) {
 	return r, nil
 }
 
+// mkPeers: the member list handed to SetValidPeers; nil and empty are different inputs
+func (w *world) mkPeers(op opIn) []*network.ServerIdentity {
+	if op.NilPeers && len(op.Peers) == 0 {
+		return nil
+	}
+	peers := make([]*network.ServerIdentity, len(op.Peers))
+	for i, p := range op.Peers {
+		peers[i] = w.mkIdent(p)
+	}
+	return peers
+}
+
+// runGroup: ops are set operations on pairwise different set ids.  Trials times they are
+// issued concurrently (one goroutine each, spinning on a common flag); after each trial
+// the sets are read back; the trials stop at the first trial whose read-back is not what
+// was just set (that trial is then the one reported) or after the last one.  Only the
+// reported trial appears in the history: the operations of a trial overwrite those of all
+// earlier trials, and set operations on different ids commute (c17_sets_on_different_ids_commute),
+// so the model runs them in index order.
+func (w *world) runGroup(pos int, ops []opIn, trials int) []outc {
+	type call struct {
+		id  network.PeerSetID
+		ctx *onet.Context
+	}
+	calls := make([]call, len(ops))
+	for i, op := range ops {
+		id, ok := w.peerSetID(op.Src)
+		if !ok {
+			panic(harnessBug("no context for a context-derived set id in a concurrent group"))
+		}
+		calls[i].id = id
+		if op.Entry > 0 {
+			calls[i].ctx = ctxFor(w.si, op.Entry-1)
+			if calls[i].ctx == nil {
+				panic(harnessBug("harness service has no context on the filtering server"))
+			}
+		}
+		for j := 0; j < i; j++ {
+			if calls[j].id == id {
+				panic(harnessBug("concurrent group with a repeated set id"))
+			}
+		}
+	}
+	if trials < 1 {
+		trials = 1
+	}
+	var crashed interface{}
+	var cmu sync.Mutex
+	for t := 0; t < trials; t++ {
+		shift := trials - 1 - t
+		lists := make([][]*network.ServerIdentity, len(ops))
+		want := make([][]int, len(ops))
+		for i, op := range ops {
+			sh := op
+			sh.Peers = make([]identIn, len(op.Peers))
+			seen := map[int]bool{}
+			for j, p := range op.Peers {
+				sh.Peers[j] = p
+				if p.Decl < 0 {
+					sh.Peers[j].Key = (p.Key + shift) % w.nkeys
+				}
+				id := w.declOf(sh.Peers[j])
+				if !seen[id] {
+					seen[id] = true
+					want[i] = append(want[i], id)
+				}
+			}
+			sort.Ints(want[i])
+			lists[i] = w.mkPeers(sh)
+			w.eff[pos+i].Peers = sh.Peers
+		}
+		var flag int32
+		var wg sync.WaitGroup
+		for i := range ops {
+			i := i
+			wg.Add(1)
+			go func() {
+				defer wg.Done()
+				defer func() {
+					if r := recover(); r != nil {
+						cmu.Lock()
+						crashed = r
+						cmu.Unlock()
+					}
+				}()
+				for atomic.LoadInt32(&flag) == 0 {
+				}
+				switch {
+				case calls[i].ctx != nil:
+					calls[i].ctx.SetValidPeers(calls[i].id, lists[i])
+				case w.srv != nil:
+					w.srv.SetValidPeers(calls[i].id, lists[i])
+				default:
+					w.router.SetValidPeers(calls[i].id, lists[i])
+				}
+			}()
+		}
+		atomic.StoreInt32(&flag, 1)
+		wg.Wait()
+		w.trials++
+		if crashed != nil {
+			break
+		}
+		// read back (not part of the history: the history reads back with its own get operations)
+		dev := false
+		for i := range ops {
+			got := w.router.GetValidPeers(calls[i].id)
+			var g []int
+			for _, x := range got {
+				g = append(g, w.canonOfID(x))
+			}
+			sort.Ints(g)
+			if got == nil || fmt.Sprint(g) != fmt.Sprint(want[i]) {
+				dev = true
+			}
+		}
+		if dev {
+			break
+		}
+	}
+	outs := make([]outc, len(ops))
+	for i := range outs {
+		outs[i] = outc{Kind: "unit"}
+	}
+	if crashed != nil {
+		outs[0] = outc{Kind: "broken", Msg: fmt.Sprint("panic in a concurrent SetValidPeers: ", crashed)}
+	}
+	return outs
+}
+
 func (w *world) dispOut(ev dispEv) outc {
 	return outc{Kind: "disp", Key: w.keyOfPub(ev.Key), Decl: w.canonOfID(ev.ID)}
 }
@@ -580,7 +720,23 @@ type errDiscard string
 // operation (model: never; checker: clause 9), not a dropped case.
 func (w *world) runOps(in *input) (outs []outc, discard string) {
 	var late []pending // ops observed "not dispatched": re-checked after the final barrier
-	for pos, op := range in.Ops {
+	w.eff = append([]opIn{}, in.Ops...)
+	for pos := 0; pos < len(in.Ops); pos++ {
+		op := in.Ops[pos]
+		if op.Kind == "set" && op.Group > 1 {
+			k := op.Group
+			if pos+k > len(in.Ops) {
+				panic(harnessBug("concurrent group longer than the history"))
+			}
+			for _, g := range in.Ops[pos : pos+k] {
+				if g.Kind != "set" {
+					panic(harnessBug("concurrent group with a non-set operation"))
+				}
+			}
+			outs = append(outs, w.runGroup(pos, in.Ops[pos:pos+k], op.Trials)...)
+			pos += k - 1
+			continue
+		}
 		var o outc
 		func() {
 			defer func() {
@@ -639,10 +795,7 @@ func (w *world) oneOp(pos int, op opIn, latep *[]pending) outc {
 				}
 			}
 			if op.Kind == "set" {
-				peers := make([]*network.ServerIdentity, len(op.Peers))
-				for i, p := range op.Peers {
-					peers[i] = w.mkIdent(p)
-				}
+				peers := w.mkPeers(op)
 				if ctx != nil {
 					ctx.SetValidPeers(id, peers)
 				} else if w.srv != nil {
@@ -884,7 +1037,7 @@ func run(raw json.RawMessage) lib.Case {
 	}
 	hist := make([]string, len(in.Ops))
 	nontrivial := false
-	for i, op := range in.Ops {
+	for i, op := range w.eff {
 		hist[i] = "(" + coqOp(w, op) + ", " + outs[i].coq() + ")"
 		if outs[i].Kind == "refuse" || outs[i].Kind == "disp" {
 			nontrivial = true
@@ -895,7 +1048,11 @@ func run(raw json.RawMessage) lib.Case {
 		sl[i] = fmt.Sprintf("(%s, %d)", s.src, s.cls)
 	}
 	coq := "Case " + lib.List(hist) + " " + lib.List(sl)
-	return lib.Case{Coq: coq, Class: class, Obs: outs, Nontrivial: nontrivial}
+	var obs interface{} = outs
+	if w.trials > 0 {
+		obs = map[string]interface{}{"outcomes": outs, "concurrent_trials_run": w.trials, "operations_as_reported": w.eff}
+	}
+	return lib.Case{Coq: coq, Class: class, Obs: obs, Nontrivial: nontrivial}
 }
 
 // ---------------------------------------------------------------- generator -
@@ -987,7 +1144,7 @@ func genHistory(rng *rand.Rand, mode, flavor string, nops int) input {
 				i := rng.Intn(len(ps))
 				ps[i].Decl = forgedDecl(ps[i].Key)
 			}
-			in.Ops = append(in.Ops, opIn{Kind: "set", Entry: entry(), Src: anySrc(), Peers: ps})
+			in.Ops = append(in.Ops, opIn{Kind: "set", Entry: entry(), Src: anySrc(), Peers: ps, NilPeers: len(ps) == 0 && rng.Intn(2) == 0})
 		case r < 34:
 			in.Ops = append(in.Ops, opIn{Kind: "get", Entry: entry(), Src: anySrc()})
 		case r < 56: // raw offer
@@ -1027,8 +1184,157 @@ func genHistory(rng *rand.Rand, mode, flavor string, nops int) input {
 	return in
 }
 
+// genEmptyNil: an EMPTY set (given as an empty list or as a nil list -- two different
+// inputs) as the first / only / last / replacing set, followed by probes of non-members
+// and former members and by read-backs: "no set was ever given" (everybody accepted, nil
+// read-back) must not be confused with "one empty set" (nobody accepted, empty read-back).
+func genEmptyNil(rng *rand.Rand, mode string, variant int) input {
+	server := strings.HasPrefix(mode, "server")
+	in := input{Mode: mode, Flavor: "emptyset", NKeys: 3, CtxPeer: -1}
+	a := &srcIn{Svc: -1, Data: []int{}}
+	b := &srcIn{Svc: -1, Data: []int{2}}
+	if server && rng.Intn(2) == 0 {
+		a = &srcIn{Svc: rng.Intn(2), Data: []int{1}}
+	}
+	entry := func() int {
+		if server {
+			return rng.Intn(3)
+		}
+		return 0
+	}
+	h := func(k int) identIn { return identIn{Key: k, Decl: -1} }
+	empty := func(src *srcIn) opIn {
+		return opIn{Kind: "set", Entry: entry(), Src: src, NilPeers: rng.Intn(3) != 0}
+	}
+	set := func(src *srcIn, ks ...int) opIn {
+		o := opIn{Kind: "set", Entry: entry(), Src: src}
+		for _, k := range ks {
+			o.Peers = append(o.Peers, h(k))
+		}
+		return o
+	}
+	get := func(src *srcIn) opIn { return opIn{Kind: "get", Entry: entry(), Src: src} }
+	add := func(ops ...opIn) { in.Ops = append(in.Ops, ops...) }
+	offer := func(k int) int {
+		id := h(k)
+		add(opIn{Kind: "offer", Ident: &id})
+		return len(in.Ops) - 1
+	}
+	msg := func(c int) { add(opIn{Kind: "msg", Conn: c, Msg: len(in.Ops)}) }
+	probes := func() {
+		for _, k := range rng.Perm(3) {
+			if rng.Intn(2) == 0 {
+				c := offer(k)
+				msg(c)
+			} else {
+				add(opIn{Kind: "psend", Peer: k, Msg: len(in.Ops)})
+			}
+		}
+	}
+	switch variant % 5 {
+	case 0: // the empty set is the first and only one
+		add(get(a), empty(a))
+		probes()
+		add(get(a), get(b))
+	case 1: // a set is replaced by the empty one, which is then the only one
+		add(set(a, 0))
+		c := offer(0)
+		add(empty(a))
+		probes()
+		msg(c)
+		add(get(a), get(b))
+	case 2: // the empty set comes last, beside a populated one
+		add(set(a, 0), empty(b))
+		probes()
+		add(get(b), get(a))
+	case 3: // all sets end up empty
+		add(empty(a), set(b, 1))
+		c := offer(1)
+		add(empty(b))
+		probes()
+		msg(c)
+		add(get(a), get(b))
+	default: // everybody is in before the first (empty) set, nobody after
+		c := offer(2)
+		add(opIn{Kind: "psend", Peer: 1, Msg: 1}, get(a), empty(a))
+		probes()
+		msg(c)
+		add(get(a), set(a, 1))
+		probes()
+		add(empty(a), get(a))
+		probes()
+	}
+	return in
+}
+
+// genConcurrent: groups of 2-4 SetValidPeers calls on different set ids released from a
+// barrier (many trials), each group followed by the read-back of every set and by probes
+// with real connections by a member of each set and by a non-member.
+func genConcurrent(rng *rand.Rand, mode string, trials int) input {
+	server := strings.HasPrefix(mode, "server")
+	nkeys := 3 + rng.Intn(3)
+	in := input{Mode: mode, Flavor: "concurrent", NKeys: nkeys, CtxPeer: -1}
+	ids := []*srcIn{{Svc: -1, Data: []int{3}}, {Svc: -1, Data: []int{4}}, {Svc: -1, Data: []int{5}}, {Svc: -1, Data: []int{6}}}
+	if server {
+		ids[1] = &srcIn{Svc: 0, Data: []int{9, 9}}
+		ids[2] = &srcIn{Svc: 1, Data: []int{9, 9}}
+	}
+	entry := func() int {
+		if server {
+			return rng.Intn(3)
+		}
+		return 0
+	}
+	if rng.Intn(2) == 0 { // an unrelated set that must survive everything
+		in.Ops = append(in.Ops, opIn{Kind: "set", Entry: entry(), Src: &srcIn{Svc: -1, Data: []int{7, 7, 7}}, Peers: []identIn{{Key: 0, Decl: -1}}})
+	}
+	for g := 0; g < 2; g++ {
+		k := 2 + rng.Intn(3)
+		perm := rng.Perm(len(ids))
+		first := len(in.Ops)
+		for i := 0; i < k; i++ {
+			var ps []identIn
+			for _, key := range rng.Perm(nkeys)[:1+rng.Intn(2)] {
+				ps = append(ps, identIn{Key: key, Decl: -1})
+			}
+			in.Ops = append(in.Ops, opIn{Kind: "set", Entry: entry(), Src: ids[perm[i]], Peers: ps})
+		}
+		in.Ops[first].Group, in.Ops[first].Trials = k, trials
+		for i := 0; i < k; i++ {
+			in.Ops = append(in.Ops, opIn{Kind: "get", Entry: entry(), Src: ids[perm[i]]})
+		}
+		in.Ops = append(in.Ops, opIn{Kind: "get", Src: &srcIn{Svc: -1, Data: []int{7, 7, 7}}})
+		// a member of every set of the group, then everybody once
+		for i := 0; i < k; i++ {
+			m := in.Ops[first+i].Peers[0]
+			if rng.Intn(2) == 0 {
+				in.Ops = append(in.Ops, opIn{Kind: "offer", Ident: &identIn{Key: m.Key, Decl: -1}})
+				in.Ops = append(in.Ops, opIn{Kind: "msg", Conn: len(in.Ops) - 1, Msg: len(in.Ops)})
+			} else {
+				in.Ops = append(in.Ops, opIn{Kind: "psend", Peer: m.Key, Msg: len(in.Ops)})
+				in.Ops = append(in.Ops, opIn{Kind: "pdrop", Peer: m.Key})
+			}
+		}
+		for key := 0; key < nkeys; key++ {
+			in.Ops = append(in.Ops, opIn{Kind: "offer", Ident: &identIn{Key: key, Decl: -1}})
+		}
+	}
+	return in
+}
+
 func generate(rng *rand.Rand, tier string) []interface{} {
 	var ins []interface{}
+	modes := []string{"router-tcp", "router-local", "router-tls", "server-tcp", "server-local"}
+	nEmpty, nConc, trials := 25, 12, 3000
+	if tier != "quick" {
+		nEmpty, nConc, trials = 200, 80, 20000
+	}
+	for i := 0; i < nEmpty; i++ {
+		ins = append(ins, genEmptyNil(rng, modes[i%len(modes)], i/len(modes)))
+	}
+	for i := 0; i < nConc; i++ {
+		ins = append(ins, genConcurrent(rng, modes[i%2*3], trials)) // router-tcp and server-tcp
+	}
 	type plan struct {
 		mode string
 		n    int
@@ -1072,6 +1378,16 @@ func corpus() []interface{} {
 		{Kind: "psend", Peer: 0, Msg: 2},
 		{Kind: "get", Src: one},
 	}})
+	// a NIL member list as the only set: nobody is valid, the read-back is empty (not nil)
+	ins = append(ins, input{Mode: "router-tcp", Flavor: "emptyset", NKeys: 2, CtxPeer: -1, Ops: []opIn{
+		{Kind: "get", Src: one},
+		{Kind: "set", Src: one, NilPeers: true},
+		{Kind: "offer", Ident: &identIn{Key: 0, Decl: -1}},
+		{Kind: "msg", Conn: 2, Msg: 3},
+		{Kind: "psend", Peer: 1, Msg: 4},
+		{Kind: "get", Src: one},
+		{Kind: "get", Src: two},
+	}})
 	// independence of sets under replacement (regression shape, no defect)
 	ins = append(ins, input{Mode: "router-tcp", Flavor: "honest", NKeys: 3, CtxPeer: -1, Ops: []opIn{
 		{Kind: "offer", Ident: &identIn{Key: 2, Decl: -1}},
@@ -1097,7 +1413,8 @@ func main() {
 		Import: "Onet.Corr.C17",
 		Rule: "seeded histories (6-22 ops quick, 6-40 thorough) over 1-4 set ids (raw ids incl. zero-padding/truncation twins, context-derived ids of two services), " +
 			"2-6 peers, on bare routers (tcp, tls, in-memory) and on onet servers driven through the router and the service contexts; " +
-			"flavours honest / forged declared id / stale id given to set / mixed; non-trivial = at least one refusal or dispatch observed; distinct = distinct Coq case term",
+			"flavours honest / forged declared id / stale id given to set / mixed; 'emptyset': empty and NIL member lists as first / only / last / replacing set with probes and read-backs; " +
+			"'concurrent': groups of 2-4 SetValidPeers on different ids released from a barrier, 3000 (thorough 20000) trials per group with changing member lists, the trial reported is the first whose read-back deviates or the last, then read-backs and connection probes; non-trivial = at least one refusal or dispatch observed; distinct = distinct Coq case term",
 		Shard:    60,
 		Generate: generate,
 		Run:      run,
